@@ -48,9 +48,9 @@ prop("C15",
                    "kernel assumptions: mapping is page granular; process_vm_readv of one iovec inside one page is all-or-EFAULT; PTRACE_PEEKDATA reads aligned words",
                    "Go-lite interpretation of the regenerated clen/hasNull/handleTrap/ptraceHandle.handle (Gen.C15, Gen.C09)"],
      assumptions=["event order of ptrace stops is a model parameter (partial for the race part): the theorem covers every single event with every ptrace request answering ESRCH; the real race is sampled",
-                  "maximality of the string returned by GetString (it is not cut short) is covered by the differential only; totality, PATH_MAX bound, NUL-freeness and content are proved"],
+                  "exactness (C15_getstring_exact) is stated for C strings that lie entirely in readable memory below PATH_MAX; for strings that run into an unreadable page the returned prefix is proved to be a NUL-free prefix of the tracee's bytes (content), its maximal length there is covered by the differential"],
      not_covered="Go runtime faults outside the modelled functions are covered only by the hostile real runs; tracerHandler.Handle's decode path is C02's",
-     level_text="Theorems for every address space and every pointer: GetString never panics, returns at most PATH_MAX NUL-free bytes that are exactly the tracee's bytes at that address; kernel-evaluated theorems on the regenerated tracer code that a tracee vanishing under any ptrace request (ESRCH) yields no verdict (never Runner Error / Disallowed Syscall) while a live set-regs failure still fails closed; differential on real memory and hostile real tracees",
+     level_text="Theorems for every address space and every pointer: GetString never panics, returns at most PATH_MAX NUL-free bytes that are a prefix of the tracee's bytes at that address, and returns a C string lying in readable memory exactly (all of it, wherever the page boundaries fall); kernel-evaluated theorems on the regenerated tracer code that a tracee vanishing under any ptrace request (ESRCH) yields no verdict (never Runner Error / Disallowed Syscall) while a live set-regs failure still fails closed; differential on real memory and hostile real tracees",
      level_note="Trusted: Lean kernel; hand model of the string reader (differentially tied); kernel memory/ptrace assumptions; translator + Go-lite interpreter. Partial for real ptrace races (sampled)",
      technique="Lean 4 proofs (induction over the chunked read loop) + decide +kernel on regenerated Go-lite code + differential + hostile real runs")
 
@@ -79,13 +79,13 @@ prop("C04",
      technique="Lean 4 proofs over all option sets on a hand skeleton + tie to regenerated Go-lite code (decide +kernel sample, exhaustive driver sweep) + real launches")
 
 prop("C06",
-     trusted_base=FORK_TB,
-     assumptions=["launcher's side of the contract: every descriptor of the launching process outside the list is close-on-exec (Go opens everything so; the container init marks its stdio); pipe ends and exec descriptor pairwise distinct",
+     trusted_base=FORK_TB + ["hand model Model/FdShuffle.lean of the descriptor shuffle (prepareFds' scratch start, moves of the sync pipe and the exec descriptor, pass 1, pass 2) on an abstract descriptor table; tied to the regenerated forkAndExecInChild by C06_hand_model_tie (kernel-evaluated on 20 layouts) and by the driver on every exhaustively enumerated layout"],
+     assumptions=["launcher's side of the contract: every descriptor of the launching process outside the list is close-on-exec (Go opens everything so; the container init marks its stdio); pipe end and exec descriptor distinct",
                   "kernel dup3/fcntl/close semantics as modelled"],
-     not_covered="an unbounded induction over the descriptor list is not proved: C06_small_scope is a kernel-evaluated bounded statement on the regenerated code; the same predicate is evaluated exhaustively for all lists of length <= 3 (quick) / <= 4 (thorough) with all placements by the compiled driver on every run; descriptors created concurrently by other goroutines are C17",
-     level_text="The regenerated forkAndExecInChild is executed on an abstract descriptor table: kernel-evaluated theorem over a family of 20 adversarial layouts (order, repeats, gaps, close marker, pipe and exec descriptor inside/above the list, vfork), exhaustive bounded enumeration in the driver on every run against the property oracle, and real launches with engineered layouts where the probe reports fstat identity of every descriptor and the Runner is deep-compared and restarted",
-     level_note="PARTIAL: bounded (small-scope) proof, not an unbounded theorem. Trusted: Lean kernel; translator + Go-lite + abstract descriptor table",
-     technique="decide +kernel on regenerated Go-lite code (bounded) + exhaustive bounded enumeration + real launches")
+     not_covered="the unbounded theorem is about the hand model; its agreement with the regenerated code is kernel-evaluated on the layout family and compared exhaustively for all lists of length <= 3 (quick) / <= 4 (thorough) with all placements on every run, not proved for every length; descriptors created concurrently by other goroutines are C17",
+     level_text="Theorem C06_shuffle_exact for descriptor lists of ANY length and any launcher table: after the shuffle and exec, descriptor k is the file listed at position k (closed for a marker), nothing else is open, the pipe and the exec descriptor still refer to their files at numbers above the list (helper lemmas: invariants of pass 1 and pass 2 by induction over the list, case analysis of the two moves). Tie: the regenerated forkAndExecInChild run by Go-lite on an abstract descriptor table agrees with the hand model and with the property oracle on a family of 20 adversarial layouts (kernel-evaluated), on every exhaustively enumerated small layout (driver, every run), and real launches with engineered layouts where the probe reports fstat identity of every descriptor and the Runner is deep-compared and restarted",
+     level_note="Trusted: Lean kernel; hand model tied to the regenerated code by kernel evaluation and exhaustive small-scope comparison; abstract descriptor table (kernel dup3/fcntl/close) assumed",
+     technique="Lean 4 proof by induction over the descriptor list (pass invariants) + decide +kernel on regenerated Go-lite code + exhaustive bounded enumeration + real launches")
 
 prop("C07",
      trusted_base=FORK_TB + ["hand model Model/SyncParent.lean of syncWithChild/handlePipeError/handleChildFailed (the Go function uses goto), tied by the real fault-injection differential"],
